@@ -37,6 +37,15 @@ Failures(T) ==
        \cup Fail("SuperCoalitionsIdForm",
                  NoDup(T.id_supers) /\ {SetOf(s) : s \in AsSet(T.id_supers)} = {S \in SUBSET Players : SetOf(c) \subseteq S})
        \cup Fail("BothFormsAgree", AsSet(T.subs) = AsSet(T.id_subs) /\ AsSet(T.supers) = AsSet(T.id_supers)))
+    [] T.kind = "helper" ->
+            Fail("NoException", T.exc = "")
+       \cup (IF T.exc # "" THEN {} ELSE
+            Fail("AllCoalitionsEnumerated", NoDup(T.all) /\ AsSet(T.all) = Coals)
+       \cup Fail("GrandCoalition", SetOf(T.grand) = Players)
+       \cup Fail("MinimalGameCoalitions", AsSet(T.minimal) = Minimal)    \* for one player the grand coalition IS the singleton: listed twice, not a defect
+       \cup Fail("SingletonOfPlayer", \A i \in Players : SetOf(T.singles[i + 1]) = {i})
+       \cup Fail("CoalitionsAvoidingACoalition", NoDup(T.avoid) /\ AsSet(T.avoid) = {d \in Coals : SetOf(d) \cap SetOf(T.c) = {}})
+       \cup Fail("HashConsistentWithEquality", T.hash_ok = 1))
     [] T.kind = "pair" ->
          LET A == SetOf(T.a)  B == SetOf(T.b) IN
             Fail("NoException", T.exc = "")
